@@ -79,6 +79,9 @@ class TrRaw(Tr):
                     self.err(e, "class attribute read before it is assigned")
                 if e.attr in self.w.idx_fields:
                     return f"(HostVector._update_vector_idxs L).{e.attr.lstrip('_')}", "Nat"
+                if e.attr in ("service_idx_map", "os_idx_map", "process_idx_map"):
+                    # name -> position within its group; names are their positions in the model
+                    return e.attr, "IdxMap"
                 if e.attr == "address_space_bounds":
                     # `cls.address_space_bounds is None` (first use of the class): the layout is a parameter here
                     return "(L.b0, L.b1)", "Shape"
@@ -111,6 +114,11 @@ class TrRaw(Tr):
                 if it in ("Nat", "Num"):
                     return f"(PyRt.row {o} {i})", "Vec"
                 self.err(e, f"tensor index of type {it}")
+            if t == "IdxMap":
+                k, kt = self.expr(e.slice, env)
+                if kt != "Nat":
+                    self.err(e, f"index map key of type {kt}")
+                return k, "Nat"
             if t == "NumMap":
                 k, _ = self.expr(e.slice, env)
                 return f"(PyRt.numMapGet {o} {k})", "Nat"
@@ -176,6 +184,9 @@ class TrRaw(Tr):
             if t in ("Int", "Nat"):
                 return a, t
             self.err(e, f"int() of {t}")
+        if text == "bool" and len(e.args) == 1:
+            a, t = self.expr(e.args[0], env)
+            return self.as_bool(a, t, e), "Bool"
         if text == "dict" and not e.args:
             return self.mask_update("HostVector.observe_defaults", e.keywords, env, e), "Mask"
         if text == "enumerate" and len(e.args) == 1:
@@ -300,6 +311,16 @@ class TrRaw(Tr):
             env2[tgt.id] = ("val", t)
             return f"{pad}let {tgt.id} := {o}\n" + nxt(env2)
         return super().assign(tgt, value, env, nxt, ind)
+
+    def assigned(self, stmts, env):
+        out = super().assigned(stmts, env)
+        for st in stmts:
+            for x in ast.walk(st):
+                if isinstance(x, ast.Expr) and isinstance(x.value, ast.Call) and isinstance(x.value.func, ast.Attribute) \
+                        and x.value.func.attr == "append" and isinstance(x.value.func.value, ast.Name) \
+                        and x.value.func.value.id not in out:
+                    out.append(x.value.func.value.id)              # l.append(v) rebinds l
+        return out
 
     def call_stmt(self, c, env, nxt, ind):
         pad = "  " * ind
@@ -504,6 +525,8 @@ def translate_observation():
     for nm, rt in (("compromised", "Int"), ("reachable", "Int"), ("discovered", "Int"), ("address", "Addr"),
                    ("value", "Int"), ("discovery_value", "Int"), ("access", "Int")):
         reg(hv_mod, "HostVector", "HV", nm, [], rt, prop=True)
+    for nm, p in (("is_running_service", "srv"), ("is_running_os", "os"), ("is_running_process", "proc")):
+        reg(hv_mod, "HostVector", "HV", nm, [(p, "Nat")], "Bool")
     # the defaults of observe's keywords
     if "observe" not in hv:
         raise Untranslatable("HostVector.observe not found")
@@ -552,9 +575,16 @@ def translate_observation():
         if key not in cache:
             cache[key] = (_methods(mod, fn.cls), _prop_methods(mod, fn.cls))
         node = (cache[key][1] if fn.prop else cache[key][0]).get(fn.name)
-        if node is None:
-            raise Untranslatable(f"{fn.cls}.{fn.name} not found")
-        ps, body = TrRaw(w, fn, node).run()
-        out.append(f"/-- `{mod.__name__.replace('.', '/')}.py`: `{fn.cls}.{fn.name}` -/\n"
-                   f"def {fn.lean} {ps} : {lean_ret(fn)} :=\n{body}")
+        try:
+            if node is None:
+                raise Untranslatable(f"{fn.cls}.{fn.name} not found")
+            ps, body = TrRaw(w, fn, node).run()
+            out.append(f"/-- `{mod.__name__.replace('.', '/')}.py`: `{fn.cls}.{fn.name}` -/\n"
+                       f"def {fn.lean} {ps} : {lean_ret(fn)} :=\n{body}")
+        except Untranslatable as e:
+            ps = "(L : Layout)" + ("" if fn.classmethod or fn.name == "__init__" else f" (self : {LEAN_TYPE[fn.self_ty]})")
+            ps += " (m : Mask)" if fn.name == "observe" else "".join(f" ({p} : {LEAN_TYPE[t]})" for p, t in fn.params)
+            why = str(e).replace("-/", "- /")
+            out.append(f"/-- UNTRANSLATABLE `{mod.__name__.replace('.', '/')}.py`: `{fn.cls}.{fn.name}` — {why} -/\n"
+                       f"def {fn.lean} {ps} : {lean_ret(fn)} := default\n")
     return "\n".join(out)
